@@ -169,7 +169,7 @@ func failsAt(s *Spec, site string) (bool, string) {
 }
 
 func shrink(s Spec, site, what string) (Spec, string) {
-	for changed := true; changed; {
+	for changed, rounds := true, 0; changed && rounds < 40; rounds++ {
 		changed = false
 		if t, ok := truncSpec(s, len(s.X0)-1); ok {
 			if f, w := failsAt(&t, site); f {
@@ -202,7 +202,7 @@ func shrink(s Spec, site, what string) (Spec, string) {
 				s, what, changed = t, w, true
 			}
 		}
-		if s.Eps < 1e-1 {
+		if s.Eps < 1e-1 && s.Eps > 0 {
 			t := s
 			t.Eps = s.Eps * 100
 			if t.Eps > 1e-1 {
